@@ -215,7 +215,7 @@ namespace
          {30, 12, 6, 4, 30, 0, 3, 3, 3, 1, 1, 1, 1, 0, 0, 3, 0, 2, 2, 0, 0, 0, 0, 0, 0, 0, 0, 0, 0}, 160, false,
          "fill-enabled case with >=4 fresh allocations checked for the new-memory pattern and >=2 "
          "releases to a pool checked for the freed-memory pattern"},
-        {"C18", O_CORE | O_CAPS, FB(F_POOL) | FB(F_COLL) | FB(F_STACK) | FB(F_ITER) | FB(F_STATIC),
+        {"C18", O_CORE | O_CAPS, FB(F_POOL) | FB(F_COLL) | FB(F_STACK) | FB(F_ITER) | FB(F_STATIC) | FB(F_LOWLEVEL),
          {30, 14, 6, 4, 24, 6, 3, 3, 3, 1, 4, 1, 1, 0, 0, 1, 0, 1, 3, 1, 10, 0, 0, 0, 0, 0, 0, 12, 0}, 160, false,
          "history with >=1 array and >=1 upstream growth whose counter deltas were all checked, or a "
          ">=1 successful capacity probe, or a min_block_size check with n > 255 or a node size that is not a "
@@ -2651,7 +2651,31 @@ namespace
                     cand.push_back(&e);
             if (cand.empty())
                 return Verdict::pass();
-            const Entry& e = *cand[P(0) % cand.size()];
+            const Entry* chosen = cand[P(0) % cand.size()];
+            if (!prog.hint.empty())
+            {
+                // "# subject=" line: select by name (registry names normalised to the display form)
+                for (auto& en : registry())
+                {
+                    std::string n = en.name;
+                    static const char* const ups[][2] = {{"_UpG2", "/grow2"}, {"_UpG32", "/grow32"}, {"_UpFixed", "/fixed"},
+                                                         {"_UpStatic", "/static"}, {"_UpVirtual", "/virtual"}};
+                    for (auto& u : ups)
+                    {
+                        auto pos = n.find(u[0]);
+                        if (pos != std::string::npos && pos + std::strlen(u[0]) == n.size())
+                            n.replace(pos, std::strlen(u[0]), u[1]);
+                    }
+                    for (auto& ch : n)
+                        if (ch == '_')
+                            ch = '-';
+                    if (n == prog.hint || en.name == prog.hint)
+                        chosen = &en;
+                }
+            }
+            const Entry& e = *chosen;
+            if (std::getenv("VF_ECHO_SUBJECT"))
+                std::fprintf(stderr, "VF-SUBJECT %s\n", e.name.c_str()); // known even if the case aborts
 
             static const size_t gaps[] = {64, 16, 256, 4096};
             Slab::get().reset(P(1), gaps[P(2) % 4]);
@@ -2666,7 +2690,7 @@ namespace
             ctx.block_extra = P(6);
             ctx.n_param     = P(8);
             ctx.obj_above   = P(3) % 2;
-            ctx.allow_known = P(11) == 999;
+            ctx.allow_known = vf::allow_known("F25") || vf::allow_known("F26");
 
             // a fault armed from the start (C03/C05): the k-th upstream allocation fails;
             // k==1 would hit the constructor, which the property does not cover (no allocator yet)
